@@ -53,13 +53,18 @@ func (r *ascii85Reader) Read(p []byte) (n int, err error) {
 	if len(p) == 0 {
 		return 0, nil
 	}
-	if r.immediateError != nil {
-		return 0, r.immediateError
-	}
 
+	// Decoded bytes which did not fit into the caller's buffer last time are
+	// delivered first, also when the end marker has been seen since.
 	if len(r.leftover) > 0 {
 		n = copy(p, r.leftover)
 		r.leftover = r.leftover[n:]
+		if len(r.leftover) > 0 {
+			return n, nil
+		}
+	}
+	if r.immediateError != nil {
+		return n, r.immediateError
 	}
 
 	for n < len(p) {
@@ -87,6 +92,10 @@ func (r *ascii85Reader) Read(p []byte) (n int, err error) {
 					r.immediateError = io.EOF
 				} else {
 					r.immediateError = errors.New("invalid end marker in ASCII85 stream")
+				}
+				if len(r.leftover) > 0 {
+					// report the end once the final bytes have been read
+					return n, nil
 				}
 				return n, r.immediateError
 			}
